@@ -52,11 +52,13 @@ class C03(DevProp):
         codes = [30, 31, 32, 33]
         SHIFT = [0, 1, -1, 2]
         for cmode in devgen.CMODES:
-            for variant in ("direct", "offset", "transpose", "transpose-distinct"):
+            for variant in ("direct", "zero", "offset", "transpose", "transpose-distinct"):
                 midi = []
                 for i, c in enumerate(codes):
                     if variant == "direct":
                         midi.append({"sub": "", "code": c, "note": 60, "off": 0})
+                    elif variant == "zero":   # note 0 on channel index 0: the pair whose encoding is a zero value
+                        midi.append({"sub": "", "code": c, "note": 0, "off": 0})
                     elif variant == "offset":
                         midi.append({"sub": "", "code": c, "note": 60, "off": 16 * 0 + (3 if i % 2 else 3)})
                     elif variant == "transpose":
